@@ -711,5 +711,5 @@ func drawQR(t *rapid.T) qrCase {
 }
 
 func TestQR(t *testing.T) {
-	vk.Run(t, "qr", vk.Opts{Quick: 900, Thorough: 30000}, drawQR, finish(checkQR))
+	vk.Run(t, "qr", vk.Opts{Quick: 900, Thorough: 16000}, drawQR, finish(checkQR))
 }
